@@ -335,6 +335,10 @@ def run_property(prop_module, tier, seed, only=None, jobs=16):
         extra = " (reproduced %d times this run)" % hit["count"] if hit else " (not reached by this run)"
         print("KNOWN-FINDING: property=%s %s%s" % (prop, entry.get("what", sig), extra))
     code = 0
+    rbase = os.path.join(os.environ.get("VERIF_REPLAY_DIR") or os.path.join(VERIF, "replays"), prop)
+    if os.path.isdir(rbase) and not only:
+        for old in os.listdir(rbase):
+            os.remove(os.path.join(rbase, old))
     for sig, v in sorted(by_sig.items()):
         rdir = os.path.join(os.environ.get("VERIF_REPLAY_DIR") or os.path.join(VERIF, "replays"), prop)
         os.makedirs(rdir, exist_ok=True)
